@@ -16,8 +16,10 @@ import time
 VERIF = os.path.dirname(os.path.dirname(os.path.abspath(__file__)))
 REPO = os.environ.get("VERIF_REPO", "/repo")
 SPEC = os.path.join(VERIF, "spec")
-WORK = os.path.join(VERIF, ".work")
-EVID = os.path.join(VERIF, "evidence")
+# VERIF_WORK / VERIF_EVIDENCE: private scratch and evidence directories, used only by the self-tests (selftest/automutate.py runs
+# several checks against mutated copies in parallel); the registered commands never set them
+WORK = os.environ.get("VERIF_WORK") or os.path.join(VERIF, ".work")
+EVID = os.environ.get("VERIF_EVIDENCE") or os.path.join(VERIF, "evidence")
 JAR = "/opt/veriftools/tla/tla2tools.jar"
 DEPS = "/opt/veriftools/tla/CommunityModules-deps.jar"
 NCPU = max(1, min(16, os.cpu_count() or 1))
@@ -257,7 +259,7 @@ class Verdict(object):
 
     def finish(self, level, coverage, assumptions):
         os.makedirs(EVID, exist_ok=True)
-        rd = os.path.join(VERIF, ".work", self.pid, "replay")
+        rd = os.path.join(WORK, self.pid, "replay")
         shutil.rmtree(rd, ignore_errors=True)
         os.makedirs(rd, exist_ok=True)
         for k in self.known:
